@@ -568,6 +568,26 @@ where
             Err(o) => return ctx.violated("encode-refused", "encode", desc, json!({"outcome": o.json()})),
         }
     }
+    if S::NAME.starts_with("ligero") {
+        // the Reed-Solomon rows do not come from the library here: row polynomial evaluated (Horner) at the powers
+        // of the primitive root of the smallest power-of-two domain with at least n_cols * rho_inv points
+        let rho = w.ck.distance().1;
+        let n = (dc * rho).next_power_of_two();
+        let omega = <LFr as ark_ff::FftField>::get_root_of_unity(n as u64).expect("root of unity");
+        let mut own: Vec<Vec<LFr>> = Vec::new();
+        for r in 0..dr {
+            let row = &coeffs[r * dc..(r + 1) * dc];
+            let mut x = LFr::one();
+            let mut out = Vec::with_capacity(n);
+            for _ in 0..n {
+                out.push(row.iter().rev().fold(LFr::zero(), |acc, c| acc * x + c));
+                x *= omega;
+            }
+            own.push(out);
+        }
+        ctx.check(own == ext_rows, "reed-solomon-rows", "encode", desc.clone(), || json!({"rho_inv": rho, "n_cols": dc, "expected_codeword_length": n, "library_codeword_length": ext_rows[0].len()}));
+        ext_rows = own;
+    }
     let n_ext = ext_rows[0].len();
     let mut leaves: Vec<Vec<u8>> = Vec::new();
     for j in 0..n_ext {
@@ -584,6 +604,7 @@ where
 }
 
 pub fn run(ctx: &mut Ctx) {
+    set_custom_params(true);
     let n = ctx.n(160, 3000);
     ctx.run_cases("marlin", n / 2, |ctx, _i, rng| kzg_family::<E381, MarlinS<E381>>(ctx, rng, false));
     ctx.run_cases("sonic", n / 2, |ctx, _i, rng| kzg_family::<E381, SonicS<E381>>(ctx, rng, true));
